@@ -60,7 +60,7 @@ def work(ctx, tier):
         ctx.inc("sweep_scenarios")
     n = (9000 if tier == "quick" else 250000) // ctx.nshards
     for k in range(n):
-        sc = gen.rand_scenario(rng, p_special=0.08, specials=("abort", "nested_exh", "nested_open", "cancel", "kbd", "sysexit"), p_budget=0.3, p_handler=0.4, p_abort=0.3, p_breaker=0.3, ncalls=(1, 2), placements=(k % 5 == 0), p_res_none=0.2, p_exc_same=0.1, poll_kinds=True)
+        sc = gen.rand_scenario(rng, p_special=0.08, specials=("abort", "nested_exh", "nested_open", "cancel", "kbd", "sysexit"), p_budget=0.3, p_handler=0.4, p_abort=0.3, p_breaker=0.3, ncalls=(1, 2), placements=(k % 5 == 0), p_res_none=0.2, p_exc_same=0.1, poll_kinds=True, p_strategy_objects=0.3, slow_hooks=(k % 3 == 1), rf_time=True)
         if k % 9 == 0:
             sc["cfg"]["no_retry"] = True
         for e in common.pick_entries(rng, entries, 3):
@@ -102,6 +102,7 @@ def work(ctx, tier):
         for e in common.pick_entries(rng, entries, 3):
             _one(ctx, sc, e, stats)
         ctx.inc("start_hook_abort_scenarios")
+    common.crossing_slice(ctx, tier, common.rng_for(ctx, "crossing"), lambda sc, e: _one(ctx, sc, e, stats), entries=entries)
     if ctx.shard == 0:
         from . import hang
 
@@ -124,6 +125,7 @@ def conclude(ctx):
     floors["outcomes_checked"] = (ctx.cnt["outcomes_checked"], 3000)
     floors["hung_attempt_runs"] = (ctx.cnt["hung_attempt_runs"], 6)
     floors["abort_position:start-hook"] = (ctx.cnt["abort_position:start-hook"], 30)
+    common.crossing_floors(ctx, floors)
     return dict(
         rule=(
             "sweep + random mixed histories + systematic abort-at-every-poll-index over the 6 execute() entry points, incl. no-retry policies, breaker rejections, "
